@@ -600,6 +600,29 @@ fn corpus(ctx: &mut Ctx) {
     h.memcopy(ctx, 0, m - 8, 9, o);
     h.read(ctx, 0, 64);
     h.read(ctx, m - 64, 64);
+    // 5b. the four memcopy arms while the heap VECTOR (not the heap) spans the whole memory: allocating more than half of
+    // the memory rounds the vector's capacity up to MEM_SIZE, `reset` keeps it, and then heap_offset() = 0 — a dispatch
+    // that looks at the vector instead of $hp sends a stack-to-stack copy into the hidden part of the heap buffer
+    for with_reset in [true, false] {
+        let mut h = Hist::new(ctx);
+        h.grow_heap(ctx, 0, 40 << 20);
+        let mut hp = m - (40 << 20);
+        if with_reset { h.reset(ctx); hp = m; }
+        h.grow_stack(ctx, 128);
+        h.write(ctx, 0, &(1..=64).collect::<Vec<u8>>());
+        let o = Own { ssp: 0, sp: 128, hp, prev_hp: m };
+        h.memcopy(ctx, 64, 0, 32, o);
+        h.memcopy(ctx, 100, 90, 20, o);
+        h.read(ctx, 0, 128);
+        h.grow_heap(ctx, 128, 64);
+        hp -= 64;
+        let o = Own { ssp: 0, sp: 128, hp, prev_hp: m };
+        h.memcopy(ctx, hp, 0, 32, o);
+        h.memcopy(ctx, hp + 32, hp, 32, o);
+        h.read(ctx, hp, 64);
+        h.memcopy(ctx, 96, hp + 32, 16, o);
+        h.read(ctx, 0, 128);
+    }
     // 6. rollback: plain, equal, heap regrown after reset (documented refusal), and the short-stack case
     let mut h = Hist::new(ctx);
     h.grow_stack(ctx, 100);
